@@ -1,6 +1,6 @@
 (* C02 — the wire codec preserves message content.  Only statements; proofs in Codec/RoundtripProofs.v. *)
 From Mos Require Import Base.Prelude Codec.Name Codec.Msg Codec.Spec Codec.NameProofs Codec.SafetyProofs
-  Codec.WfProofs Codec.RoundtripProofs.
+  Codec.WfProofs Codec.RoundtripProofs Codec.TruncProofs Codec.CompressProofs.
 
 (* The uncompressed encoding, packed into a buffer of the advertised length, succeeds and has exactly
    the advertised length (Msg.Len). *)
@@ -43,7 +43,18 @@ Proof.
 Qed.
 Print Assumptions C02_oracle_plain.
 
-(* With compression the full statement is FALSE of the faithful model (finding K1): a message the
+(* Round trip WITH name compression: a well-formed message none of whose names (owners, question names, names inside
+   RDATA) has more than 10 labels is packed to wire data that decodes — whatever octets follow it — to a message with
+   the same view, and the compressed encoding is never longer than the advertised (uncompressed) length.
+   [msg_depth_ok] is the exact side condition under which every pointer chain the encoder builds stays within the
+   decoder's limit of 10 hops (a name of k labels needs at most k hops: the compression-table invariant). *)
+Theorem C02_roundtrip_compressed : forall (m : msg) (trailing : list N), wf_msg m -> msg_depth_ok m ->
+  exists out m', pack_msg (msg_len m) true 0 m = Ok out /\ unpack_msg (out ++ trailing) = Ok m' /\ view m' = view m /\
+                 length out <= msg_len m.
+Proof. exact compressed_roundtrip. Qed.
+Print Assumptions C02_roundtrip_compressed.
+
+(* With compression and names of MORE than 10 labels the full statement is FALSE of the faithful model (finding K1): a message the
    decoder accepts whose compressed encoding the decoder itself rejects (more than 10 pointer hops). *)
 Fixpoint deep_names (k : nat) (acc : list N) : list (list N) :=
   match k with
